@@ -20,6 +20,10 @@
 (*   Run             the model is evaluated (initialize_profiles + path    *)
 (*                   integral): reads, never writes                        *)
 (* Properties (of every step): ReadYourWrite, FrameRule, RunIsPure.        *)
+(* The frame extends to OTHER objects: a model constructed at any moment   *)
+(* with its constructor arguments left at their defaults reads the         *)
+(* documented defaults, whatever was written to the long-lived one before  *)
+(* (Trace_ParamFrame: FrameRule-other-object, ConstructorHonoured).        *)
 (* The substance is in the binding: TLC-generated behaviours are replayed  *)
 (* on real models of every built-in component family and the vector read   *)
 (* through ALL getters of the model is validated after every action by     *)
